@@ -7,7 +7,6 @@ package locks
 import (
 	"fmt"
 	"math/rand"
-	"sort"
 	"testing"
 
 	"github.com/buildbarn/bb-remote-execution/pkg/filesystem/pool"
@@ -745,14 +744,4 @@ func TestDirRandom(t *testing.T) {
 		}
 	}
 	common.WriteJSON("meta.json", map[string]any{"traces": traces, "calls": calls})
-}
-
-// sortedKeys is a small helper for deterministic output.
-func sortedKeys[V any](m map[string]V) []string {
-	out := make([]string, 0, len(m))
-	for k := range m {
-		out = append(out, k)
-	}
-	sort.Strings(out)
-	return out
 }
